@@ -67,11 +67,20 @@ class LiteDRAMWishbone2Native(LiteXModule):
             If(port.cmd.valid & port.cmd.ready & ~wishbone.we, NextState("READ")),
             NextValue(aborted, 0),
         )
+        # When the master drops the cycle while the write data is still owed to the port (or a newer
+        # access already waits behind an aborted one), keep offering data with all byte enables off:
+        # the controller takes the data exactly once, whether or not it is valid.
+        wr_aborted = Signal()
         self.comb += [
+            wr_aborted.eq(fsm.ongoing("WRITE") & (~wishbone.cyc | aborted)),
             port.wdata.valid.eq(wishbone.stb & wishbone.we),
             If(ratio <= 1, If(~fsm.ongoing("WRITE"), port.wdata.valid.eq(0))),
             port.wdata.data.eq(wishbone.dat_w),
             port.wdata.we.eq(wishbone.sel),
+            If(wr_aborted,
+                port.wdata.valid.eq(1),
+                port.wdata.we.eq(0),
+            ),
         ]
         fsm.act("WRITE",
             NextValue(aborted, ~wishbone.cyc | aborted),
